@@ -97,6 +97,7 @@ func runC18(c *Ctx) {
 	c18DisableScope(c, pk)
 	c18DisableAnyMatch(c, pk)
 	c18PrefixSuffixIndependent(c, pk)
+	c18EnabledAsGiven(c)
 	c18SweepScansAll(c, pkI)
 	c18PerVisitState(c, pk)
 	c18AccumulatorCarry(c, pk)
